@@ -1,6 +1,6 @@
 (* C07 — all memory comes from the allocator and is returned to it exactly once. *)
 From Coq Require Import ZArith List Bool.
-From Cntgs Require Import Base Layout Mem Vector World Spec Rep WorldThm NtLedger.
+From Cntgs Require Import Base Layout Mem Vector World Spec Rep WorldThm NtLedger Proxy Elem ElemLedger.
 Import ListNotations.
 Local Open Scope Z_scope.
 
@@ -62,3 +62,17 @@ Theorem C07_step_balanced_every_list : forall L junk v nb o,
   ledger (blocks_of L v) e = Some (blocks_of L v') /\ ids_ok L v' nb'.
 Proof. exact lstep_ledger_nt. Qed.
 Print Assumptions C07_step_balanced_every_list.
+
+(* ---------- the block of a ContiguousElement ----------
+   Whole life of an element made from a reference (copy or move form, any list, any value
+   types): after construction the ledger holds exactly one block - requested from the
+   element's allocator, unit size SA, the rounded-up number of units - and after destruction
+   it is empty: the block went back to the same allocator with the same unit size and count,
+   nothing else was allocated or freed. *)
+Theorem C07_element_block_obtained_once_returned_once : forall mv L ms fls sb aid junk nb,
+  let r := elem_from_ref mv L ms fls sb aid junk nb in
+  let e := snd (fst r) in
+  ledger [] (snd r) = Some [(nb, (aid, SA L, units L (ref_bytes L fls)))] /\
+  ledger [] (snd r ++ elem_destroy L e) = Some [].
+Proof. exact elem_life_ledger. Qed.
+Print Assumptions C07_element_block_obtained_once_returned_once.
